@@ -80,6 +80,12 @@ func exerciseDiff(c *mon.Ctx, how string, d jd.Diff, docs []string) bool {
 			if err == nil && P != nil {
 				_ = P.Json()
 				_ = P.Yaml()
+			} else {
+				// a refused patch returns an error value; the document it was tried on is still a document
+				_ = n.Json()
+				_ = n.Yaml()
+				_ = n.Equals(n)
+				_, _ = n.Patch(jd.Diff{})
 			}
 		}, 20)
 		if !finished {
@@ -87,7 +93,7 @@ func exerciseDiff(c *mon.Ctx, how string, d jd.Diff, docs []string) bool {
 			return false
 		}
 		if pan != "" {
-			c.Violation("panic while applying a successfully read "+how+" to a document", map[string]any{"document": x, "panic": pan})
+			c.Violation("panic while applying a successfully read "+how+" to a document (or while using the document after the patch was refused)", map[string]any{"document": x, "panic": pan})
 			return false
 		}
 		if err != nil {
